@@ -40,9 +40,9 @@ def run(tier="quick", seed=0, use_cache=True):
     res.units = {"translation_units": len(out), "functions": tot.get("functions", 0),
                  "entry_points": tot.get("entries", 0)}
     oo = out.get("OO", {}).get("stats", {})
-    res.floor("activation sites (OO)", oo.get("acq", 40), 60)
-    res.floor("release sites (OO)", oo.get("rel", 55), 80)
-    res.floor("pin-only sites (OO)", oo.get("pin", 3), 4)
+    res.floor("activation sites (OO)", oo.get("acq", 0), 40)
+    res.floor("release sites (OO)", oo.get("rel", 0), 55)
+    res.floor("pin-only sites (OO)", oo.get("pin", 0), 3)
     res.floor("lifecycle slots with ghost test (OO)", oo.get("lifecycle_with_test", 0), 8)
     res.floor("translation units", len(out), 22)
     res.count("PIN-LEAK", tot.get("acq", 0) + tot.get("pin", 0))
